@@ -64,9 +64,9 @@ type Case struct {
 	// Transport anomalies (sequence family, request A only): the body is
 	// Data followed by BodyPad filler bytes; the body reader fails after
 	// delivering all of that; the request context is already cancelled.
-	BodyPad   int    `json:"body_pad,omitempty"`
-	PadWith   string `json:"pad_with,omitempty"`
-	BodyErr   bool   `json:"body_err,omitempty"`
+	BodyPad int    `json:"body_pad,omitempty"`
+	PadWith string `json:"pad_with,omitempty"`
+	BodyErr bool   `json:"body_err,omitempty"`
 	// Fault: how the body reader fails after delivering Data (and the pad):
 	// reset, unexpected-eof, canceled, max-bytes, zero-reads. BodyErr is the
 	// older spelling of Fault "reset".
@@ -76,6 +76,11 @@ type Case struct {
 	// invalid chunk size) or short-content-length (Content-Length announces
 	// more than Data, then the client closes its side).
 	Wire string `json:"wire,omitempty"`
+	// Shape != "": another presentation of the same body bytes to the handler
+	// (doubles.BodyShapes: unknown length, one byte per Read, (0, nil) reads,
+	// last bytes together with io.EOF). Set by the generator for every fifth
+	// case that has no other transport anomaly; obligations are unchanged.
+	Shape     string `json:"shape,omitempty"`
 	Cancelled bool   `json:"cancelled,omitempty"`
 	// Prev, when set, is executed immediately before this request in the
 	// same process, Repeat times (sequence family).
@@ -346,6 +351,9 @@ func buildRequest(cs *Case) (*http.Request, error) {
 		h.Set("Content-Length", strconv.Itoa(len(cs.Body.Data)))
 	} else {
 		req.Body = http.NoBody
+	}
+	if cs.Shape != "" && cs.BodyPad == 0 && cs.fault() == "" {
+		doubles.ShapeBody(req, cs.Body.Data, cs.Shape)
 	}
 	if cs.Cancelled || cs.fault() == "canceled" {
 		ctx, cancel := context.WithCancel(context.Background())
